@@ -261,11 +261,6 @@ Proof. unfold mk_agent. destruct (sp_legacy sp); [reflexivity|]. destruct (sp_fa
 Lemma mk_agent_loc sp id k p : agent_loc (mk_agent sp id k p) = Some p.
 Proof. unfold mk_agent. destruct (sp_legacy sp); [reflexivity|]. destruct (sp_family sp); reflexivity. Qed.
 
-Lemma set_loc_ids sp id p l : map a_id (set_loc sp id p l) = map a_id l.
-Proof.
-  unfold set_loc. rewrite map_map. apply map_ext_in. intros a _.
-  destruct (a_id a =? id) eqn:E; [|reflexivity]. rewrite mk_agent_id. apply Z.eqb_eq in E. congruence.
-Qed.
 Lemma set_kind_ids id k l : map a_id (set_kind id k l) = map a_id l.
 Proof.
   unfold set_kind. rewrite map_map. apply map_ext_in. intros a _.
@@ -279,6 +274,101 @@ Proof.
   constructor; [|apply IH; exact Ht].
   intros Hin. apply Hx. apply in_map_iff in Hin. destruct Hin as [y [Hy Hin]].
   apply filter_In in Hin. apply in_map_iff. exists y. tauto.
+Qed.
+
+Lemma find_app id l1 l2 :
+  find_agent id (l1 ++ l2) =
+  match find_agent id l1 with Some a => Some a | None => find_agent id l2 end.
+Proof.
+  unfold find_agent. induction l1 as [|a t IH]; simpl; [reflexivity|].
+  destruct (a_id a =? id); [reflexivity|exact IH].
+Qed.
+
+Lemma find_filter_other id id' l :
+  find_agent id' (filter (fun a => negb (a_id a =? id)) l) =
+  if id' =? id then None else find_agent id' l.
+Proof.
+  unfold find_agent. induction l as [|a t IH]; simpl.
+  - destruct (id' =? id); reflexivity.
+  - destruct (a_id a =? id) eqn:E1; simpl.
+    + rewrite IH. destruct (id' =? id) eqn:E2; [reflexivity|].
+      destruct (a_id a =? id') eqn:E3; [|reflexivity].
+      apply Z.eqb_eq in E1, E3. apply Z.eqb_neq in E2. congruence.
+    + destruct (a_id a =? id') eqn:E3.
+      * destruct (id' =? id) eqn:E2; [|reflexivity].
+        apply Z.eqb_eq in E2, E3. apply Z.eqb_neq in E1. congruence.
+      * exact IH.
+Qed.
+
+Lemma find_map_same_id (f : agent -> agent) id l :
+  (forall a, a_id (f a) = a_id a) ->
+  find_agent id (map f l) = option_map f (find_agent id l).
+Proof.
+  intros Hf. unfold find_agent. induction l as [|a t IH]; simpl; [reflexivity|].
+  rewrite Hf. destruct (a_id a =? id); [reflexivity|exact IH].
+Qed.
+
+Lemma find_agent_id id l a : find_agent id l = Some a -> a_id a = id.
+Proof. unfold find_agent. intros H. apply find_some in H. apply Z.eqb_eq. tauto. Qed.
+
+(* a move (to the end of the list for cell spaces, in place for the continuous space) *)
+Lemma set_loc_NoDup sp id p l :
+  NoDup (map a_id l) -> NoDup (map a_id (set_loc sp id p l)).
+Proof.
+  intros Hnd. unfold set_loc. destruct (moves_to_end sp).
+  - destruct (find (fun a => a_id a =? id) l) as [a|]; [|exact Hnd].
+    destruct (negb (sp_legacy sp) && at_cell p a); [exact Hnd|].
+    rewrite map_app. simpl. rewrite mk_agent_id.
+    eapply Permutation_NoDup; [apply Permutation_cons_append|].
+    constructor; [|apply NoDup_map_filter; exact Hnd].
+    intros Hin. apply in_map_iff in Hin. destruct Hin as [b [Hb Hin]]. apply filter_In in Hin.
+    destruct Hin as [_ Hin]. rewrite Hb, Z.eqb_refl in Hin. discriminate.
+  - replace (map a_id (map (fun a => if a_id a =? id then mk_agent sp id (a_kind a) p else a) l)) with (map a_id l); [exact Hnd|].
+    rewrite map_map. apply map_ext_in. intros a _.
+    destruct (a_id a =? id) eqn:E; [|reflexivity]. rewrite mk_agent_id. apply Z.eqb_eq in E. congruence.
+Qed.
+
+Lemma set_loc_Forall (P : agent -> Prop) sp id p l :
+  Forall P l -> (forall k, P (mk_agent sp id k p)) -> Forall P (set_loc sp id p l).
+Proof.
+  intros Hl Hnew. unfold set_loc. destruct (moves_to_end sp).
+  - destruct (find (fun a => a_id a =? id) l) as [a|]; [|exact Hl].
+    destruct (negb (sp_legacy sp) && at_cell p a); [exact Hl|].
+    apply Forall_app. split; [|constructor; [apply Hnew|constructor]].
+    apply Forall_forall. intros b Hb. apply filter_In in Hb. rewrite Forall_forall in Hl. apply Hl. tauto.
+  - apply Forall_map. eapply Forall_impl; [|exact Hl].
+    intros b Hb. cbn beta. destruct (a_id b =? id); [apply Hnew|exact Hb].
+Qed.
+
+Definition info (a : agent) : Z * option coord := (a_kind a, agent_loc a).
+
+Lemma set_loc_find sp id p l a id' :
+  find_agent id l = Some a ->
+  option_map info (find_agent id' (set_loc sp id p l)) =
+  if id' =? id then Some (a_kind a, Some p) else option_map info (find_agent id' l).
+Proof.
+  intros Ef. pose proof (find_agent_id _ _ _ Ef) as Hid. unfold set_loc. destruct (moves_to_end sp).
+  - unfold find_agent in Ef. rewrite Ef.
+    destruct (negb (sp_legacy sp) && at_cell p a) eqn:Esame.
+    + destruct (id' =? id) eqn:E; [|reflexivity].
+      apply Z.eqb_eq in E. subst id'. fold (find_agent id l) in Ef. rewrite Ef. simpl. unfold info.
+      apply andb_true_iff in Esame. destruct Esame as [_ Hat]. unfold at_cell in Hat.
+      destruct (agent_loc a) as [q|]; [|discriminate].
+      destruct p as [p1 p2], q as [q1 q2]. unfold coord_eqb in Hat. simpl in Hat.
+      apply andb_true_iff in Hat. rewrite !Z.eqb_eq in Hat. destruct Hat; subst. reflexivity.
+    + rewrite find_app, find_filter_other.
+      destruct (id' =? id) eqn:E.
+      * apply Z.eqb_eq in E. subst id'. unfold find_agent. simpl. rewrite mk_agent_id, Z.eqb_refl. simpl.
+        unfold info. rewrite mk_agent_kind, mk_agent_loc. reflexivity.
+      * destruct (find_agent id' l); [reflexivity|].
+        unfold find_agent. simpl. rewrite mk_agent_id. rewrite Z.eqb_sym in E. rewrite E. reflexivity.
+  - rewrite find_map_same_id.
+    2:{ intros b. destruct (a_id b =? id) eqn:E; [|reflexivity]. rewrite mk_agent_id. apply Z.eqb_eq in E. congruence. }
+    destruct (id' =? id) eqn:E.
+    + apply Z.eqb_eq in E. subst id'. rewrite Ef. simpl. rewrite Hid, Z.eqb_refl. simpl.
+      unfold info. rewrite mk_agent_kind, mk_agent_loc. reflexivity.
+    + destruct (find_agent id' l) as [b|] eqn:Eb; [|reflexivity]. simpl.
+      rewrite (find_agent_id _ _ _ Eb), E. reflexivity.
 Qed.
 
 Lemma step_inv sp pt st o : inv sp st -> inv sp (fst (step sp pt st o)).
@@ -299,9 +389,8 @@ Proof.
     destruct (find_agent id (st_agents st)) eqn:Ef; [|split; assumption].
     destruct (valid_addr sp x y) eqn:Ev; simpl; [|split; assumption].
     destruct (sp_single sp && occupied (addr_coord sp x y) (st_agents st)); simpl; [split; assumption|].
-    unfold inv; simpl. split; [rewrite set_loc_ids; exact Hnd|].
-    unfold set_loc. apply Forall_map. eapply Forall_impl; [|exact Hloc].
-    intros b Hb. cbn beta. destruct (a_id b =? id); [|exact Hb].
+    unfold inv; simpl. split; [apply set_loc_NoDup; exact Hnd|].
+    apply set_loc_Forall; [exact Hloc|]. intros k.
     exists (addr_coord sp x y). split; [apply mk_agent_loc|]. exists x, y. tauto.
   - (* Remove *)
     destruct (find_agent id (st_agents st)) eqn:Ef; [|split; assumption]. simpl.
@@ -387,7 +476,6 @@ Definition accepted (sp : space) (st : state) (o : op) : bool :=
   end.
 
 (* what the drawing must show for an agent: its kind and its location *)
-Definition info (a : agent) : Z * option coord := (a_kind a, agent_loc a).
 Definition lookup (id : Z) (st : state) : option (Z * option coord) :=
   option_map info (find_agent id (st_agents st)).
 
@@ -408,37 +496,8 @@ Proof.
   - intros _. destruct (st_layer st); reflexivity.
 Qed.
 
-Lemma find_map_same_id (f : agent -> agent) id l :
-  (forall a, a_id (f a) = a_id a) ->
-  find_agent id (map f l) = option_map f (find_agent id l).
-Proof.
-  intros Hf. unfold find_agent. induction l as [|a t IH]; simpl; [reflexivity|].
-  rewrite Hf. destruct (a_id a =? id); [reflexivity|exact IH].
-Qed.
 
-Lemma find_app id l1 l2 :
-  find_agent id (l1 ++ l2) =
-  match find_agent id l1 with Some a => Some a | None => find_agent id l2 end.
-Proof.
-  unfold find_agent. induction l1 as [|a t IH]; simpl; [reflexivity|].
-  destruct (a_id a =? id); [reflexivity|exact IH].
-Qed.
 
-Lemma find_filter_other id id' l :
-  find_agent id' (filter (fun a => negb (a_id a =? id)) l) =
-  if id' =? id then None else find_agent id' l.
-Proof.
-  unfold find_agent. induction l as [|a t IH]; simpl.
-  - destruct (id' =? id); reflexivity.
-  - destruct (a_id a =? id) eqn:E1; simpl.
-    + rewrite IH. destruct (id' =? id) eqn:E2; [reflexivity|].
-      destruct (a_id a =? id') eqn:E3; [|reflexivity].
-      apply Z.eqb_eq in E1, E3. apply Z.eqb_neq in E2. congruence.
-    + destruct (a_id a =? id') eqn:E3.
-      * destruct (id' =? id) eqn:E2; [|reflexivity].
-        apply Z.eqb_eq in E2, E3. apply Z.eqb_neq in E1. congruence.
-      * exact IH.
-Qed.
 
 (* every accepted operation changes exactly the named agent's entry, to exactly what was asked *)
 Lemma step_lookup sp pt st o id' :
@@ -468,17 +527,8 @@ Proof.
   - destruct (find_agent id (st_agents st)) eqn:Ef; simpl; [|discriminate].
     destruct (valid_addr sp x y); simpl; [|discriminate].
     destruct (sp_single sp && occupied (addr_coord sp x y) (st_agents st)); simpl; [discriminate|].
-    intros _. unfold set_loc. rewrite find_map_same_id.
-    2:{ intros b. destruct (a_id b =? id) eqn:E; [|reflexivity]. rewrite mk_agent_id. apply Z.eqb_eq in E. congruence. }
-    destruct (id' =? id) eqn:E.
-    + apply Z.eqb_eq in E. subst id'. rewrite Ef. simpl.
-      assert (a_id a = id) as Hid.
-      { unfold find_agent in Ef. apply find_some in Ef. apply Z.eqb_eq. tauto. }
-      rewrite Hid, Z.eqb_refl. unfold info. rewrite mk_agent_kind, mk_agent_loc. reflexivity.
-    + destruct (find_agent id' (st_agents st)) as [b|] eqn:Eb; [|reflexivity]. simpl.
-      assert (a_id b = id') as Hid.
-      { unfold find_agent in Eb. apply find_some in Eb. apply Z.eqb_eq. tauto. }
-      rewrite Hid, E. reflexivity.
+    intros _. rewrite (set_loc_find sp id (addr_coord sp x y) (st_agents st) a id' Ef).
+    destruct (id' =? id) eqn:E; reflexivity.
   - destruct (find_agent id (st_agents st)) eqn:Ef; simpl; [|discriminate].
     intros _. unfold remove_agent. rewrite find_filter_other.
     destruct (id' =? id); reflexivity.
@@ -835,8 +885,7 @@ Proof.
   - destruct (find_agent id (st_agents st)); [|assumption].
     destruct (valid_addr sp x y); simpl; [|assumption].
     destruct (sp_single sp && occupied (addr_coord sp x y) (st_agents st)); simpl; [assumption|].
-    unfold set_loc. apply Forall_map. eapply Forall_impl; [|exact H].
-    intros b Hb. cbn beta. destruct (a_id b =? id); [|exact Hb].
+    apply set_loc_Forall; [exact H|]. intros k.
     rewrite mk_agent_pos by exact Hp. discriminate.
   - destruct (find_agent id (st_agents st)); [|assumption]. simpl.
     unfold remove_agent. apply Forall_forall. intros b Hb. apply filter_In in Hb.
@@ -1175,4 +1224,86 @@ Proof.
   destruct (accepted sp (exec sp pt (init_state c) ops) o) eqn:E.
   - apply step_lookup. exact E.
   - unfold lookup. rewrite (step_rejected sp pt _ o E). reflexivity.
+Qed.
+
+(* ------------------------------------------------------------------ round 3: components, encodings, scales, kwargs *)
+(* the state never depends on the portrayal *)
+Lemma step_state_pt_indep sp pt pt' st o : fst (step sp pt st o) = fst (step sp pt' st o).
+Proof.
+  destruct o; simpl; try reflexivity.
+  - destruct (find_agent id (st_agents st)); [reflexivity|].
+    destruct (valid_addr sp x y); simpl; [|reflexivity].
+    destruct (sp_single sp && occupied (addr_coord sp x y) (st_agents st)); reflexivity.
+  - destruct (find_agent id (st_agents st)); [|reflexivity].
+    destruct (valid_addr sp x y); simpl; [|reflexivity].
+    destruct (sp_single sp && occupied (addr_coord sp x y) (st_agents st)); reflexivity.
+  - destruct (find_agent id (st_agents st)); reflexivity.
+  - destruct (find_agent id (st_agents st)); reflexivity.
+Qed.
+
+Lemma exec_pt_indep sp pt pt' ops : forall st, exec sp pt st ops = exec sp pt' st ops.
+Proof.
+  unfold exec. induction ops as [|o t IH]; intros st; simpl; [reflexivity|].
+  rewrite (step_state_pt_indep sp pt pt' st o). apply IH.
+Qed.
+
+(* make_space_component hands through exactly what draw_space / _draw_grid produce; without an
+   agent_portrayal every agent gets the default marker / a row without portrayal keys *)
+Lemma component_same_data sp pt st :
+  step sp pt st (DrawMplC false) = step sp pt st DrawMpl /\
+  step sp pt st (DrawAltairC false) = step sp pt st DrawAltair.
+Proof. split; reflexivity. Qed.
+
+Lemma component_default_portrayal c ops :
+  let sp := c_space c in let pt := c_portrayal c in
+  let st := exec sp pt (init_state c) ops in
+  snd (step sp pt st (DrawMplC true)) = obs_rows (map mark_row (map (drawn_mark sp []) (st_agents st))).
+Proof.
+  intros sp pt st. cbn [step snd].
+  pose proof (obs_mpl_spec {| c_space := sp; c_portrayal := []; c_layer := c_layer c; c_ops := c_ops c |} ops) as H.
+  cbn [c_space c_portrayal] in H. unfold st.
+  rewrite (exec_pt_indep sp pt [] ops). exact H.
+Qed.
+
+(* Altair encodings: taken from the first row only *)
+Definition enc_color (sp : space) (pt : portrayal) (ags : list agent) : Z := nth 1 (obs_altair_enc sp pt ags) (-1).
+Definition enc_size (sp : space) (pt : portrayal) (ags : list agent) : Z := nth 2 (obs_altair_enc sp pt ags) (-1).
+
+Definition altair_supported (sp : space) : Prop :=
+  ((sp_altair sp = 1 \/ sp_altair sp = 2) /\ grid_family sp) \/ (sp_altair sp = 3 /\ has_pos sp).
+
+(* if all agents in the space portray the same set of keys, the chart encodes colour / size exactly when they do *)
+Lemma altair_encoding_uniform c ops kc ks :
+  let sp := c_space c in let pt := c_portrayal c in
+  let st := exec sp pt (init_state c) ops in
+  altair_supported sp -> st_agents st <> [] ->
+  (forall a, In a (st_agents st) -> oflag (pd_color (portray pt (a_kind a))) = kc /\
+                                     oflag (pd_size (portray pt (a_kind a))) = ks) ->
+  enc_color sp pt (st_agents st) = kc /\ enc_size sp pt (st_agents st) = ks.
+Proof.
+  intros sp pt st Hsup Hne Hall.
+  destruct (altair_one_row_each c ops Hsup) as [rows [Hr Hp]]. fold sp pt st in Hr, Hp.
+  unfold enc_color, enc_size, obs_altair_enc. rewrite Hr.
+  destruct rows as [|r t].
+  - apply Permutation_nil in Hp. apply map_eq_nil in Hp. contradiction.
+  - assert (Hin : In r (map (arow_of pt) (st_agents st))) by (eapply Permutation_in; [exact Hp|left; reflexivity]).
+    apply in_map_iff in Hin. destruct Hin as [a [Ha Hin]]. subst r. cbn [ar_d arow_of nth].
+    destruct (Hall a Hin) as [H1 H2]. split; assumption.
+Qed.
+
+(* layers: within [vmin, vmax] distinct values are shown differently, in every mode *)
+Lemma shown_injective fam cm lo hi a4 v v' :
+  lo < hi -> lo <= v <= hi -> lo <= v' <= hi -> 0 < a4 <= 4 ->
+  shown fam cm lo hi a4 v = shown fam cm lo hi a4 v' -> v = v'.
+Proof.
+  intros Hlh Hv Hv' Ha.
+  assert (a4 = 1 \/ a4 = 2 \/ a4 = 3 \/ a4 = 4) as Hcases by lia.
+  unfold shown, clip. destruct fam, cm; destruct Hcases as [->|[->|[->| ->]]]; lia.
+Qed.
+
+Lemma creator_kwargs_lossless ps :
+  Permutation (creator_kwargs ps) (map (fun kv => (fst kv, pv_value (snd kv))) ps).
+Proof.
+  unfold creator_kwargs. cbv zeta. rewrite <- map_app. apply Permutation_map.
+  rewrite Permutation_app_comm. apply (proj1 (split_lossless ps)).
 Qed.
